@@ -17,7 +17,9 @@ import check, gens
 from . import c07
 
 GEN = ['numeric', 'tables']
-LEAN_MODULES = ['XfabVerif.Proofs.C08']
+LEAN_MODULES = ['XfabVerif.Proofs.C08', 'XfabVerif.Proofs.C08Tables']
+# definitions the hand-written model mirrors (see harness/pins.py): a source change breaks the tie
+PINS = ['xfab/structure.py:StructureFactor']
 LEAN_DRIVER_MODULES = ['XfabVerif.Model.SFFloat']
 RULE = ("groups BY NAME: quick = 40 settings stratified over the seven crystal systems (incl. a rhombohedral setting and a 192-operation "
         "cubic group), thorough = all 230 names + 7 rhombohedral settings; direct sum: oblique general cells (Gram factor >= 0.02), "
